@@ -162,10 +162,10 @@ structure MInv (mc base : Nat) (bytes : ByteArray) (s : MS) (env : Val → Nat) 
   emb : Emb mc base bytes mem
   ctx : env moduleCtx = mc
   nextGe : 2 ≤ s.ls.next
-  mbase : ∀ v, s.memBase = some v → env v = base ∧ v < s.ls.next
-  mlen : ∀ v, s.memLen = some v → env v = bytes.size ∧ v < s.ls.next
-  bnd : ∀ e ∈ s.bounds, env e.1 + e.2.1 ≤ bytes.size ∧ env e.2.2 = base + env e.1 ∧ e.1 < s.ls.next ∧
-    e.2.2 < s.ls.next
+  mbase : ∀ v : Nat, s.memBase = some v → env v = base ∧ v < s.ls.next
+  mlen : ∀ v : Nat, s.memLen = some v → env v = bytes.size ∧ v < s.ls.next
+  bnd : ∀ b bound a : Nat, (b, bound, a) ∈ s.bounds →
+    env b + bound ≤ bytes.size ∧ env a = base + env b ∧ b < s.ls.next ∧ a < s.ls.next
 
 theorem MInv.frame {mc base : Nat} {bytes : ByteArray} {s s' : MS} {env env' : Val → Nat} {mem : Mem}
     (h : MInv mc base bytes s env mem) (hb : s'.memBase = s.memBase) (hl : s'.memLen = s.memLen)
@@ -176,7 +176,7 @@ theorem MInv.frame {mc base : Nat} {bytes : ByteArray} {s s' : MS} {env env' : V
   · rw [he _ (by show 1 < _; omega)]; exact hctx
   · intro v hv; rw [hb] at hv; obtain ⟨h1, h2⟩ := hmb v hv; rw [he v h2]; exact ⟨h1, Nat.lt_of_lt_of_le h2 hn⟩
   · intro v hv; rw [hl] at hv; obtain ⟨h1, h2⟩ := hml v hv; rw [he v h2]; exact ⟨h1, Nat.lt_of_lt_of_le h2 hn⟩
-  · intro e hm; rw [hbd] at hm; obtain ⟨h1, h2, h3, h4⟩ := hbnd e hm
+  · intro b bound a hm; rw [hbd] at hm; obtain ⟨h1, h2, h3, h4⟩ := hbnd b bound a hm
     rw [he _ h3, he _ h4]; exact ⟨h1, h2, Nat.lt_of_lt_of_le h3 hn, Nat.lt_of_lt_of_le h4 hn⟩
 
 theorem lookupBound_mem : ∀ (bs : List (Val × Nat × Val)) (b : Val) (e : Nat × Val),
